@@ -14,6 +14,12 @@ impl<const O: usize> KM<O> {
         requires v@.len() == O * O
         ensures r.wf(), forall|i: int, j: int| #![trigger r.at(i, j)] 0 <= i < O && 0 <= j < O ==> r.at(i, j) == v@[i + j * (O as int)]@
     { unimplemented!() }
+    // nalgebra Matrix::from_column_slice: "the elements are in COLUMN-major order" (assumed contract on the dependency)
+    #[verifier::external_body]
+    pub fn from_column_slice(v: &[R]) -> (r: Self)
+        requires v@.len() == O * O
+        ensures r.wf(), forall|i: int, j: int| #![trigger r.at(i, j)] 0 <= i < O && 0 <= j < O ==> r.at(i, j) == v@[i + j * (O as int)]@
+    { unimplemented!() }
     // nalgebra Matrix::from_row_slice: "the elements are in ROW-major order" (assumed contract on the dependency)
     #[verifier::external_body]
     pub fn from_row_slice(v: &[R]) -> (r: Self)
